@@ -557,6 +557,14 @@ func (r *Report) Finish() {
 	for k, v := range r.Extra {
 		cov[k] = v
 	}
+	if r.Assumptions == nil {
+		r.Assumptions = []string{}
+	}
+	r.Assumptions = append(r.Assumptions, "analysed: default build (linux/amd64, no tags) of package zlint, lint, util, lints/*, cmd/zlint, cmd/zlint-gtld-update, formattedoutput, profiles; test files are not part of the product")
+	if r.Trusted == nil {
+		r.Trusted = []string{}
+	}
+	cov["trusted_base"] = r.Trusted
 	seed := 0
 	fmt.Sscanf(os.Getenv("VERIF_SEED"), "%d", &seed)
 	ev := map[string]interface{}{
